@@ -392,6 +392,10 @@ def pair_oracle(ops, linked, r):
     lost_conn = any(o[0] == 'Lost' for o in ops)
     if (lost_a or lost_b) and confirmed and not (closed_a and closed_b):
         bad.append('closing one end did not close both (socket closed=%s channel closed=%s)' % (closed_a, closed_b))
+    got_eof_b = any(o[0] == 'EofB' and d for o, d in zip(ops, r['delivered']))
+    if confirmed and got_eof_a and got_eof_b and not (closed_a and closed_b):
+        bad.append('both directions have seen EOF but the pair is not closed (socket closed=%s channel closed=%s)'
+                   % (closed_a, closed_b))
     if lost_a and not closed_a:
         bad.append('socket transport not closed after its connection_lost')
     if r['asrt']:
